@@ -1,7 +1,7 @@
 (* Executable glue for the C16 correspondence shards (no proofs here). *)
 From Coq Require Import List ZArith Bool Arith.
 Import ListNotations.
-From LV Require Import Goose.Epoch Goose.EpochProofs Goose.Warmup.
+From LV Require Import Goose.Epoch Goose.EpochProofs Goose.Warmup Goose.EpochBuilder.
 Open Scope Z_scope.
 
 Definition econf_eqb (a b : econf) : bool :=
@@ -28,10 +28,15 @@ Definition decode (alphabet : list econf) (s : list nat) : list econf :=
 Definition nexts_of (l : list econf) : list (nat * Z) :=
   map (fun s => (nth_ep s, t0 s)) (mgr_nexts (mkM l 0 0) (length l)).
 
+(* all observable fields of the states: (nth_epoch, time_before_epoch, time, time_in_epoch) *)
+Definition nexts_full_of (l : list econf) : list (nat * Z * Z * Z) :=
+  map (fun s => let f := full_of s in (f_nth f, f_before f, f_time f, f_in f))
+      (mgr_nexts (mkM l 0 0) (length l)).
+
 (* accepted sequences with the states next() hands out, in enumeration order *)
-Definition model_accepted (alphabet : list econf) (maxlen : nat) : list (list nat * list (nat * Z)) :=
+Definition model_accepted (alphabet : list econf) (maxlen : nat) : list (list nat * list (nat * Z * Z * Z)) :=
   flat_map (fun s => let l := decode alphabet s in
-                     if accepts l then [(s, nexts_of l)] else [])
+                     if accepts l then [(s, nexts_full_of l)] else [])
            (seqs_upto (length alphabet) maxlen).
 
 (* --- part B: op interleavings on one manager --- *)
@@ -79,3 +84,63 @@ Definition agrees_c (c : (Z * Z * Z * Z * Z * Z * Z) * option (list econf) * opt
       && match ch with Some z => chunk_len l =? z | None => true end
   | _, _ => false
   end.
+
+(* stan_epochs called twice with identical arguments; between the calls the caller edits the first
+   result in place (list and EpochConfig objects).  Both results must be the model's value: the
+   function is a pure function of its arguments. *)
+Definition agrees_c2 (c : (Z * Z * Z * Z * Z * Z * Z) * option (list econf) * option (list econf)
+                          * option bool * option Z) : bool :=
+  let '(args, res, res2, acc, ch) := c in
+  agrees_c (args, res, acc, ch) && agrees_c (args, res2, None, None).
+
+(* --- part D: EngineBuilder.set_epochs / set_duration + build --- *)
+Inductive bobs := ObsOk (l : list econf) (ch : Z) | ObsValueError | ObsRuntimeError.
+Definition bres_agrees (m : bres) (o : bobs) : bool :=
+  match m, o with
+  | BOk l ch, ObsOk l' ch' => list_eqb econf_eqb l l' && (ch =? ch')
+  | BValueError, ObsValueError => true
+  | BRuntimeError, ObsRuntimeError => true
+  | _, _ => false
+  end.
+Definition agrees_bld_epochs (c : list econf * bobs) : bool :=
+  bres_agrees (builder_set_epochs (fst c)) (snd c).
+Definition agrees_bld_duration (c : (Z * Z * Z * Z * Z) * bobs) : bool :=
+  let '((w, p, t, thp, thw), o) := c in bres_agrees (builder_set_duration w p t thp thw) o.
+
+(* --- part E: EpochState: to_state, a sequence of advance_time calls, time_left --- *)
+Definition efull_obs (s : efull) : nat * Z * Z * Z * Z :=
+  (f_nth s, f_time s, f_before s, f_in s, time_left s).
+Definition obs5_eqb (a b : nat * Z * Z * Z * Z) : bool :=
+  let '(n1, t1, b1, i1, l1) := a in let '(n2, t2, b2, i2, l2) := b in
+  Nat.eqb n1 n2 && (t1 =? t2) && (b1 =? b2) && (i1 =? i2) && (l1 =? l2).
+Definition agrees_state (c : econf * nat * Z * list Z * (nat * Z * Z * Z * Z)) : bool :=
+  let '(cf, n, tb, bys, o) := c in
+  obs5_eqb (efull_obs (fold_left advance_time bys (to_state cf n tb))) o.
+
+(* --- part F: a real engine built by the builder samples all epochs ---
+   observed: Some (number of posterior draws per chain in the results) or None when building or
+   sampling raised.  Model: every non-initial epoch is run with the builder's chunk (the clock ends
+   at the sum of all durations); the posterior epochs store duration / thinning draws each. *)
+Fixpoint run_all (l : list econf) (n : nat) (tb : Z) (ch : Z) : option Z :=
+  match l with
+  | [] => Some tb
+  | c :: r => match run_epoch (to_state c n tb) ch with
+              | Some s => run_all r (S n) (f_time s) ch
+              | None => None
+              end
+  end.
+Definition engine_model (l : list econf) : option Z :=
+  match builder_set_epochs l with
+  | BOk (c0 :: r) ch =>
+      match run_all r 1 (dur c0) ch with
+      | Some tend =>
+          if tend =? fold_left Z.add (map dur l) 0
+          then Some (fold_left Z.add (map (fun c => if is_post (ety_ c) then dur c / thin c else 0) l) 0)
+          else None
+      | None => None
+      end
+  | _ => None
+  end.
+Definition oz_eqb (a b : option Z) : bool :=
+  match a, b with Some x, Some y => x =? y | None, None => true | _, _ => false end.
+Definition agrees_engine (c : list econf * option Z) : bool := oz_eqb (engine_model (fst c)) (snd c).
